@@ -147,4 +147,4 @@ def run(case):
 
 
 def legs(tier):
-    return [Leg('coop', _case(), run, 2400, 320000)]
+    return [Leg('coop', _case(), run, 8000, 320000)]
